@@ -46,7 +46,8 @@ type Event struct {
 	ExpPkg  string `json:"expPkg,omitempty"`
 	ExpNode string `json:"expNode,omitempty"`
 	// for renames: full name (pkg.Class.method) of the project method this call is meant for, "" if none
-	Target string `json:"target,omitempty"`
+	Target   string `json:"target,omitempty"`
+	FinalVar bool   `json:"finalVar,omitempty"` // the receiver is a local variable declared `final`
 }
 
 // FuncTruth is a declared constructor or method.
@@ -121,6 +122,7 @@ type classSig struct {
 	methods   []methodSig
 	role      string
 	path      string
+	base      string // name before a role suffix (Test, Tests, ignore suffix) is appended
 }
 
 func (c classSig) full() string { return c.pkg + "." + c.name }
@@ -173,6 +175,14 @@ func GenProject(t *rapid.T, o Opts) Project {
 	}
 	for i := 0; i < n; i++ {
 		s := classSig{pkg: rapid.SampledFrom(pkgs).Draw(t, "pkg"), name: g.names.Class(t), kind: "Class", role: "main"}
+		if i > 0 && rapid.IntRange(0, 3).Draw(t, "suffixTwin") == 3 {
+			// a class whose name ends with the name of another one (OrderRepo / Repo)
+			twin := "X" + g.sigs[rapid.IntRange(0, i-1).Draw(t, "twinOf")].base
+			if !g.names.used[twin] {
+				g.names.Reserve(twin)
+				s.name = twin
+			}
+		}
 		if o.Interfaces && rapid.IntRange(0, 4).Draw(t, "isInterface") == 4 {
 			s.kind = "Interface"
 		}
@@ -204,6 +214,7 @@ func GenProject(t *rapid.T, o Opts) Project {
 			s.methods = append(s.methods, ms)
 		}
 		// path
+		s.base = s.name
 		base := s.name
 		dirs := strings.ReplaceAll(s.pkg, ".", "/")
 		switch s.role {
@@ -317,12 +328,13 @@ func (g *gen) collaborators(i int) []int {
 }
 
 type varInfo struct {
-	name string
-	kind string // field param local foreach lambda
-	typ  string // declared type text (no blanks)
-	cls  int    // index into sigs when the declared type is a plain project class name, else -1
-	ext  bool   // declared type is a plain imported external class
-	extI int
+	name  string
+	kind  string // field param local foreach lambda
+	typ   string // declared type text (no blanks)
+	cls   int    // index into sigs when the declared type is a plain project class name, else -1
+	ext   bool   // declared type is a plain imported external class
+	extI  int
+	final bool
 }
 
 type unitCtx struct {
@@ -585,6 +597,14 @@ func (g *gen) unit(i int) (string, UnitTruth) {
 		} else {
 			u.method(s.methods[m.idx], exts, typeParam)
 		}
+	}
+	if s.kind == "Class" && len(chosen) > 0 && rapid.IntRange(0, 5).Draw(t, "trailingField") == 0 {
+		// a field declared after the members; its initializer belongs to no function
+		c := chosen[0]
+		name := u.fieldName()
+		w.S("\n" + u.indent + "private " + g.sigs[c].name + " " + name + " = new " + g.sigs[c].name + "();\n")
+		truth.Fields = append(truth.Fields, Param{g.sigs[c].name, name})
+		u.used[g.sigs[c].name] = true
 	}
 	w.S("}\n")
 	if rapid.IntRange(0, 4).Draw(t, "noFinalNewline") == 0 {
